@@ -174,6 +174,27 @@ def parse_assumptions(output):
     return entries
 
 
+def run_coqchk(prop_files, timeout=900):
+    mods = [p[:-2].replace('/', '.') for p in prop_files]
+    cmd = ['coqchk', '-o', '-silent', '-Q', 'SF', 'SF', '-Q', 'Gen', 'Gen', '-Q', 'Proofs', 'Proofs',
+           '-Q', 'Properties', 'Properties', '-Q', 'Refuted', 'Refuted'] + mods
+    try:
+        p = subprocess.run(cmd, cwd=COQ, stdout=subprocess.PIPE, stderr=subprocess.STDOUT, text=True, timeout=timeout, preexec_fn=_limits)
+    except subprocess.TimeoutExpired:
+        return {'ok': None, 'note': f'coqchk timed out after {timeout}s', 'axioms': []}
+    out = p.stdout
+    axioms = []
+    m = re.search(r'\* Axioms:(.*?)\n\s*\n\* Constants/Inductives relying on type-in-type', out, re.S)
+    if m and '<none>' not in m.group(1):
+        axioms = [ln.strip() for ln in m.group(1).splitlines() if ln.strip()]
+    flags = {}
+    for label in ('type-in-type', 'unsafe (co)fixpoints', 'positivity is assumed'):
+        mm = re.search(re.escape(label) + r':\s*(.*)', out)
+        flags[label] = (mm.group(1).strip() if mm else '?')
+    ok = p.returncode == 0 and all(v == '<none>' for v in flags.values())
+    return {'ok': ok, 'cmd': ' '.join(cmd), 'axioms': axioms, 'flags': flags, 'tail': out[-600:]}
+
+
 FORBIDDEN_RE = re.compile(r'\b(Admitted|admit|Axiom|Axioms|Parameter|Parameters|Conjecture|Admit Obligations|Unset Guard Checking|bypass_check|Unset Universe Checking|Unset Positivity Checking)\b')
 
 
@@ -393,6 +414,16 @@ def run_check(prop, tier, seed):
     finally:
         lock.close()
 
+    # independent re-check (thorough tier only: ~1 min): coqchk -o on the property files, axioms into the evidence
+    coqchk_report = None
+    if tier == 'thorough' and not broken_obligations and os.environ.get('VERIF_NO_COQCHK') != '1':
+        coqchk_report = run_coqchk(prop_files)
+        for ax in coqchk_report.get('axioms', []):
+            if ax.split('.')[-1] not in STDLIB_AXIOMS and ax not in STDLIB_AXIOMS:
+                broken_obligations.append((prop_files[0], 'coqchk', f'coqchk reports non-stdlib axiom {ax}'))
+        if coqchk_report.get('ok') is False:
+            broken_obligations.append((prop_files[0], 'coqchk', 'coqchk rejected the compiled files: ' + coqchk_report.get('tail', '')[-300:]))
+
     proof_log = ''
     if not ok_proofs:
         proof_log = '\n'.join(l for l in log_proofs.splitlines() if 'Error' in l or l.startswith('File ') or 'rror:' in l)[:4000]
@@ -532,6 +563,7 @@ def run_check(prop, tier, seed):
             'trusted_base': BASE_TRUSTED + list(getattr(prop, 'TRUSTED', ())) + [f'{n}: axioms {a}' for n, a in sorted(axioms_used.items())],
             'theorems': [f'{pf}:{n}' for pf, n in discharged],
             'broken': broken_things,
+            'coqchk': coqchk_report if coqchk_report is not None else 'not run in this tier (thorough only)',
             'evaluations': len(cases),
             'distinct_nontrivial': len(distinct),
             'rule': getattr(prop, 'RULE', ''),
